@@ -46,7 +46,7 @@ template <class KE, class VE> struct MapRun {
         size_t mbA = (size_t)(kn.num("minA", 3) & 31); if (!mbA) mbA = 1; size_t mbB = (size_t)(kn.num("minB", 3) & 31); if (!mbB) mbB = 1;
         hashMode() = (int)(kn.num("hash", 0) % 3);
         a = new M(R.mm, lfA, mbA, (size_t)(kn.num("etA", 3) & 63));
-        b = new M(R.mm, lfB, mbB, (size_t)(kn.num("etB", 3) & 63));
+        b = new M(R.mmB(), lfB, mbB, (size_t)(kn.num("etB", 3) & 63));
         R.snapshot = [this] { Json o = Json::object(); o["op"] = "force_state"; o["a"] = jsonMap(ma); o["b"] = jsonMap(mb); return o; };
     }
     IM read(const Base& m, const char* which) {
@@ -190,7 +190,7 @@ template <class E> struct SetRun {
     explicit SetRun(Run& r) : R(r), a(0), b(0), erases(0), grew(false) {
         R.apiClass = "XalanSet";
         hashMode() = (int)(R.plan.at("knobs").num("hash", 0) % 3);
-        a = new S_(R.mm); b = new S_(R.mm);
+        a = new S_(R.mm); b = new S_(R.mmB());
         R.snapshot = [this] { Json o = Json::object(); o["op"] = "force_state"; o["a"] = jsonMap(ma); o["b"] = jsonMap(mb); return o; };
     }
     IM read(const S_& s, const char* which) {
